@@ -3,6 +3,10 @@ package c03
 import (
 	"context"
 	"fmt"
+	cid "github.com/ipfs/go-cid"
+	files "github.com/ipfs/go-ipfs-files"
+	"github.com/ipfs/ipfs-cluster/adder"
+	"github.com/ipfs/ipfs-cluster/adder/single"
 	"sort"
 	"sync"
 	"testing"
@@ -484,6 +488,96 @@ func (r *rig) run(c Case) Obs {
 		}
 	}
 	return o
+}
+
+// runAdderCase adds one small file through the real adder and compares the
+// committed allocations with BlockAllocate's decision.
+func (r *rig) runAdderCase(st []int, pr pair) {
+	if r.dry {
+		r.nDry++
+		return
+	}
+	if err := r.shared.State.Rm(r.ctx, theCid); err != nil {
+		r.t.Fatal(err)
+	}
+	r.shared.Reset()
+	opts := api.PinOptions{Name: "added", ReplicationFactorMin: pr.mn, ReplicationFactorMax: pr.mx}
+	var decision []peer.ID
+	probe := api.PinWithOpts(theCid, opts)
+	if err := r.p.API.Client.CallContext(r.ctx, "", "Cluster", "BlockAllocate", probe, &decision); err != nil {
+		R.Broken("adder section: BlockAllocate failed for st=%v rf=%d/%d: %v", st, pr.mn, pr.mx, err)
+		return
+	}
+	params := api.DefaultAddParams()
+	params.PinOptions = opts
+	dgs := single.New(r.p.API.Client, params.PinOptions, false)
+	a := adder.New(dgs, params, nil)
+	data := []byte(fmt.Sprintf("c03 adder case %v %d/%d", st, pr.mn, pr.mx))
+	dir := files.NewSliceDirectory([]files.DirEntry{files.FileEntry("f", files.NewBytesFile(data))})
+	var root cid.Cid
+	var err error
+	pan := recovered(func() { root, err = a.FromFiles(r.ctx, dir) })
+	sig := fmt.Sprintf("adder|%s|rf%d,%d|self-at-%d", r.alloc, pr.mn, pr.mx, indexOf(decision, r.pids[0]))
+	outcome := "committed-the-decision"
+	key := ""
+	detail := map[string]interface{}{"metric_state": st, "factors": fmt.Sprintf("%d/%d", pr.mn, pr.mx), "allocator": r.alloc, "block_allocate_answer": r.indices(decision)}
+	switch {
+	case pan != "":
+		outcome, key = "panic", "C03|add|"+r.alloc+"|panic"
+		detail["panic"] = pan
+	case err != nil:
+		outcome = "add-failed" // a legal outcome when blocks cannot be delivered
+		detail["error"] = err.Error()
+	default:
+		st2, gerr := r.shared.State.Get(r.ctx, root)
+		if gerr != nil {
+			outcome, key = "not-stored", "C03|add|"+r.alloc+"|succeeded-but-not-stored"
+			break
+		}
+		got := r.indices(st2.Allocations)
+		detail["stored_allocations"] = got
+		seen := map[int]bool{}
+		dup := false
+		for _, g := range got {
+			if seen[g] {
+				dup = true
+			}
+			seen[g] = true
+		}
+		want := map[int]bool{}
+		for _, d := range r.indices(decision) {
+			want[d] = true
+		}
+		same := len(seen) == len(want)
+		for g := range seen {
+			if !want[g] {
+				same = false
+			}
+		}
+		switch {
+		case dup:
+			outcome, key = "duplicate", "C03|add|"+r.alloc+"|duplicate-peer@stored"
+		case !same:
+			outcome, key = "differs", "C03|add|"+r.alloc+"|stored-allocations-differ-from-the-decision"
+		}
+	}
+	flushMu.Lock()
+	usedSecs["adder-commits-the-decision"] = true
+	flushMu.Unlock()
+	R.Eval(R.Sec("adder-commits-the-decision"), sig+"|"+outcome, true)
+	R.Outcome(R.Sec("adder-commits-the-decision"), outcome)
+	if key != "" {
+		R.Violation(key, detail)
+	}
+}
+
+func indexOf(l []peer.ID, p peer.ID) int {
+	for i, x := range l {
+		if x == p {
+			return i
+		}
+	}
+	return -1
 }
 
 // evaluate runs, judges and reports one case; returns the observation.
